@@ -3,6 +3,7 @@ package operator
 import (
 	"fmt"
 	"net"
+	"strings"
 	"time"
 
 	"github.com/pkg/errors"
@@ -806,9 +807,18 @@ func Regex(ctx *context.Context, left, right value.Value) (value.Value, error) {
 	}
 }
 
+// matchesAcl reports whether the ACL matches the address.
+// As Fastly does, the most specific entry (longest prefix) which contains the address
+// decides: the address matches unless that entry is negated, and it does not match
+// when no entry contains it. An entry without a mask is a single host.
 func matchesAcl(acl value.Acl, ip net.IP) (bool, error) {
+	matched := false
+	longest := -1
 	for _, entry := range acl.Value.CIDRs {
 		var mask int64 = 32
+		if strings.Contains(entry.IP.Value, ":") {
+			mask = 128 // IPv6 host
+		}
 		if entry.Mask != nil {
 			mask = entry.Mask.Value
 		}
@@ -818,13 +828,15 @@ func matchesAcl(acl value.Acl, ip net.IP) (bool, error) {
 		if err != nil {
 			return false, fmt.Errorf("failed to parse CIDR %s", cidr)
 		}
-		if ipnet.Contains(ip) {
-			return true, nil
-		} else if entry.Inverse != nil && entry.Inverse.Value {
-			return true, nil
+		if !ipnet.Contains(ip) {
+			continue
+		}
+		if ones, _ := ipnet.Mask.Size(); ones > longest {
+			longest = ones
+			matched = entry.Inverse == nil || !entry.Inverse.Value
 		}
 	}
-	return false, nil
+	return matched, nil
 }
 
 func NotRegex(ctx *context.Context, left, right value.Value) (value.Value, error) {
